@@ -46,10 +46,14 @@ def static_ops():
     # a callback that raises (e.g. an assertion on the arguments): the call is still matched, rotated and recorded
     ops.append(('add', 0, 'm0', 'cbraise', False))
     ops.append(('add', 0, 'm1', 'cbraise', True))
+    # a callback that itself makes a client call (to m1 on the same endpoint) which the same mocker answers
+    ops.append(('add', 0, 'm0', 'cbnested', False))
     for e in (0, 1):
         for m in METHODS:
             ops.append(('call', e, m, 'pos'))
         ops.append(('call', e, 'm0', 'named'))
+        if e == 0:
+            ops.append(('call', e, 'm0', 'named-id'))       # by-name parameters called id / callback / method / endpoint
         ops.append(('call', e, 'zz', 'pos'))          # unpatched method
         for pair in itertools.product(METHODS, repeat=2):
             ops.append(('batch', e, pair))
@@ -111,6 +115,14 @@ def ref_apply(state, calls, op, n, passthrough):
             return ('error', 1000 + pn)
         if pk == 'cbraise':
             return ('exc', 'RuntimeError', 'cbraise %d' % pn)
+        if pk == 'cbnested':
+            if not st.get(e):
+                inner = ('passthrough',) if passthrough else ('refused',)
+            else:
+                inner = answer(e, 'm1', ('pos', [pn]))
+                if inner[0] == 'exc':
+                    return inner          # an exception raised by the inner callback travels through the outer call
+            return ('result', ['nested%d' % pn, list(inner)])
         return ('result', ['cb%d' % pn, args])
 
     if kind == 'add':
@@ -138,6 +150,8 @@ def ref_apply(state, calls, op, n, passthrough):
     if kind in ('call', 'call0', 'notify'):
         m = op[2]
         args = ('kw', {'a': n}) if (kind == 'call' and op[3] == 'named') else ('pos', [n])
+        if kind == 'call' and op[3] == 'named-id':
+            args = ('kw', {'id': n, 'callback': 'c', 'method': 'x', 'endpoint': 'y', 'request': 1})
         a = answer(e, m, args)
         if a[0] == 'exc':
             return st, cl, a
@@ -189,13 +203,56 @@ def make_cb(n):
     return cb
 
 
+class Watchdog:
+    """a call that is never answered (a lock taken twice by the same thread ...) ends after `seconds` with TimeoutError"""
+    def __init__(self, seconds=8):
+        self.seconds = seconds
+
+    def __enter__(self):
+        import signal
+
+        def fire(signum, frame):
+            raise TimeoutError('call not answered within %d s (deadlock)' % self.seconds)
+        self.old = signal.signal(signal.SIGALRM, fire)
+        signal.setitimer(signal.ITIMER_REAL, self.seconds)
+
+    def __exit__(self, *a):
+        import signal
+        signal.setitimer(signal.ITIMER_REAL, 0)
+        signal.signal(signal.SIGALRM, self.old)
+        return False
+
+
+def make_nested_cb(n, kind, cls, e):
+    def cb(*args, **kwargs):
+        client = cls(EPS[e])
+        try:
+            r = client.send(Request('m1', [n], id=99))
+            if kind == 'async':
+                loop = VLoop()
+                try:
+                    r = loop.run(r)
+                finally:
+                    loop.close()
+        except ConnectionRefusedError:
+            return ['nested%d' % n, ['refused']]
+        if r.is_error:
+            inner = ['notfound'] if r.error.code == -32601 else ['error', r.error.code]
+        elif r.result == 'REAL':
+            inner = ['passthrough']
+        else:
+            inner = ['result', r.result]
+        return ['nested%d' % n, inner]
+    return cb
+
+
 def real_apply(kind, mocker, cls, op, n):
     """apply op on the real mocker / client -> observation"""
     k = op[0]
     if k == 'add':
         _, e, m, pk, once = op
         kw = dict(result='r%d' % n) if pk == 'result' else (dict(error=JsonRpcError(1000 + n, 'e%d' % n)) if pk == 'error' else
-                                                           dict(callback=make_raising_cb(n) if pk == 'cbraise' else make_cb(n)))
+                                                           dict(callback=make_raising_cb(n) if pk == 'cbraise' else (make_nested_cb(n, kind, cls, e) if pk == 'cbnested' else make_cb(n))))
         mocker.add(EPS[e], m, once=once, **kw)
         return None
     if k == 'replace':
@@ -215,13 +272,14 @@ def real_apply(kind, mocker, cls, op, n):
 
     def drive(thunk):
         try:
-            r = thunk()
-            if kind == 'async':
-                loop = VLoop()
-                try:
-                    r = loop.run(r)
-                finally:
-                    loop.close()
+            with Watchdog():
+                r = thunk()
+                if kind == 'async':
+                    loop = VLoop()
+                    try:
+                        r = loop.run(r)
+                    finally:
+                        loop.close()
             return r
         except ConnectionRefusedError:
             return 'REFUSED'
@@ -243,6 +301,8 @@ def real_apply(kind, mocker, cls, op, n):
         m = op[2]
         rid = 0 if k == 'call0' else 7
         params = {'a': n} if (k == 'call' and op[3] == 'named') else [n]
+        if k == 'call' and op[3] == 'named-id':
+            params = {'id': n, 'callback': 'c', 'method': 'x', 'endpoint': 'y', 'request': 1}
         r = drive(lambda: client.send(Request(m, params, id=rid)))
         if r == 'REFUSED':
             return ('refused',)
